@@ -111,12 +111,26 @@ def report_regions(rep, tag, summaries, seen_sites):
 def _ntt_worker(args):
     kind, cfgs = args
     R = nttcheck.Runner('avx2', omp=True)
+    R1 = nttcheck.Runner('avx2', omp=True, opts={'omp_world': 'tid1'}) if ompcheck.uses_thread_identity('avx2') else None
     out = []
     for c in cfgs:
         try:
             r = R.run_transform(kind, *c) if kind in ('ntt', 'intt') else R.run_extend(*c)
             W = R.world(c[0], c[-1] if kind in ('ntt', 'intt') else c[7])[0]
             summ = ompcheck.summarize(W.I)
+            if R1 is not None and any(s_[3] or s_[4] for s_ in summ):
+                # a conflict in the one-thread world of a tree that asks for thread numbers: confirmed only if it is still there
+                # between an iteration run as thread 0 and another run as thread 1 (thread-indexed scratch is private)
+                try:
+                    R1.run_transform(kind, *c) if kind in ('ntt', 'intt') else R1.run_extend(*c)
+                except Exception:
+                    pass
+                W1 = R1.world(c[0], c[-1] if kind in ('ntt', 'intt') else c[7])[0]
+                summ2 = ompcheck.cross_summarize(W.I, W1.I)
+                if summ2 is None:
+                    r = ('incomplete', 'footprints as thread 0 and as thread 1 do not line up (the region structure depends on the thread number)', None)
+                else:
+                    summ = summ2
         except Exception as e:
             r = ('incomplete', 'engine: %s: %s' % (type(e).__name__, str(e)[:200]), None)
             summ = []
